@@ -120,7 +120,8 @@ def run_case(case):
     res = new_result()
     call = simreg.build_call(case)
     # rebuild spec graphs to get hold of the rate-function call log
-    H, J, node_w, edge_w, calls = specs.build_spec_graphs(case['spec'], case.get('weight_form'), call.G, directed=call.G.is_directed())
+    H, J, node_w, edge_w, calls = specs.build_spec_graphs(case['spec'], case.get('weight_form'), call.G, directed=call.G.is_directed(),
+                                                          spont_boost=case.get('spont_boost', 1.0), nbr_boost=case.get('nbr_boost', 1.0))
     call.args[1], call.args[2] = H, J
     call.H, call.J = H, J
     oracle = generic_e2.SpecOracle(call.G, H, J, node_w, edge_w)
